@@ -14,5 +14,8 @@ def run(tier):
         if q.endswith('.__init__'):
             reps.append(deductive.verify_function(rel, q, c, hooks=OW.hooks_for(c), prefix='%s::%s[stores its arguments]' % (rel, q)))
     reps.append(OW.frame_report())
+    # LocalInference: estimate -> mirror_descent -> _setup hand the caller's total on unchanged
+    for rel, q, c in OW.LI_ITEMS:
+        reps.append(deductive.verify_function(rel, q, c, hooks=OW.hooks_for(c), prefix='%s::%s[total handed on]' % (rel, q)))
     reps += OW.fg_frame_reports()
     return reps
